@@ -10,7 +10,30 @@ import KrillModel.ES.Lemmas
 import KrillModel.ES.ObsLemmas
 import KrillModel.Sys.Lemmas
 import KrillModel.Sys.AggSerial
+import KrillModel.Sys.EffectsLemmas
+import KrillModel.ES.HistLemmas
 import KrillModel.ES.Reg
+/-
+Clause → theorem (text of C07 in /verif/properties.jsonl):
+* "applied one at a time in a single total order" / "every interleaving … same and different
+  entities": `serialisable`, `quiescent_equals_serial` (any machine), `agg_serialisable`,
+  `serialisable_with_listeners` (listeners writing shared stores under the scope lock);
+  necessity of the lock: `lock_necessary`; the dynamic assumption: `wellBracketed_exclusive`.
+* "each state-changing or rejected command receives exactly one consecutive version number":
+  `command_owns_one_version`, `accepted_owns_one_version`, `rejected_only_audit`,
+  `view_wellFormed(_reachable)` (keys `command-0…n-1`, record `k` has version `k`).
+* "none is lost or applied twice": `serialisable` item 4, `audit_log_in_lock_order`.
+* "every reader sees a state that is a prefix of that order": `read_is_prefix_state`,
+  `agg_serialisable` (results = serial results), `history_read_linearisable`.
+* "A rejected command changes nothing observable except for one audit record carrying the
+  error": `rejected_only_audit(_obs)`.
+* "a command without effect leaves no trace": `noop_no_trace(_obs)`; also
+  `presave_failure_no_trace(_obs)`, `failed_write_no_trace`.
+* "the history API lists every recorded command in order with its actor": `history_lists_all`
+  (with `drop_aggregate`), `history_lists_all_no_drop`, `history_lists_all_obs`,
+  `history_read_linearisable`; counter-models: `history_stale_after_drop` (pinned tree),
+  `history_needs_dropSafe`, `history_read_straddling_recreation`.
+-/
 namespace KM.Props.C07
 open KM.ES KM.Sys
 
@@ -121,6 +144,24 @@ theorem agg_serialisable (hiv : A.initVersion ≤ 1) (ents0 : Nat → Ent A) (L0
     rw [r2]
     rfl
 
+/-- **audit_log_in_lock_order.**  Under any schedule, for every entity nobody is inside of: the
+stored audit log is the initial log followed by records `new` such that the `(actor, details)`
+stamps of `new` are – in order – a sub-sequence of the commands sent to that entity *in
+lock-acquisition order*.  So every stored record belongs to exactly one command call, no call
+is recorded twice, and the records are in lock order (which calls are recorded – the accepted
+and the rejected ones – is `command_owns_one_version`). -/
+theorem audit_log_in_lock_order (hiv : A.initVersion ≤ 1) (ents0 : Nat → Ent A) (L0 : Nat → Log A)
+    (h0 : ∀ e, Inv (ents0 e) (L0 e)) (progs : List (List (Nat × AggCall A))) (sched : List Nat) :
+    let sys := run true (Sys.init (M := aggMachine A) ents0 progs) sched
+    ∀ e, sys.locked e = false → ∃ new : List (Stored A),
+      Inv (sys.ents e) (L0 e ++ new) ∧
+      (new.map stampOf).Sublist (commandStamps (callsOn sys.acq e)) := by
+  intro sys e hl
+  have h1 := (agg_serialisable hiv ents0 L0 h0 progs sched).1 e hl
+  rw [specSerial_ent] at h1
+  obtain ⟨new, hn, hs⟩ := specRun_calls_sublist (callsOn sys.acq e) (L0 e)
+  exact ⟨new, by rw [← hn]; exact h1, hs⟩
+
 /-- A read returns the replay of the log as it is at the read's place in the order. -/
 theorem read_is_prefix_state (L : Log A) (i : Nat) :
     (specStep L (.get i)).2 = some (match finalOf L with | some w => .ok w | none => .unknown) ∧
@@ -154,6 +195,68 @@ theorem command_owns_one_version (L : Log A) (w : Ver A) (c : Sent A) :
         cases hs : A.preSave s' (ev :: evs) with
         | some e => exact Or.inr (Or.inr rfl)
         | none => exact Or.inr (Or.inl ⟨ev :: evs, s', by simp, rfl, ha, hs, rfl⟩)
+
+/-! ### listeners that write other stores while the scope lock is held -/
+
+section Listeners
+variable {E : EMachine}
+
+/-- **serialisable_with_listeners.**  Calls on several entities whose phases also write to a store
+shared by all entities while the entity's scope lock is held (krill: the pre-save listener
+writes the CA's objects, the post-save listener the task queue).  The shared store receives the
+writes of different entities interleaved in time, yet under any schedule, for every entity
+nobody is inside of: (1) its state is the serial state in lock-acquisition order; (2) its
+writes in the shared store (`writesOf`) are exactly the writes of the serial execution of its
+calls, in lock order, each once – no write of an accepted command is missing, duplicated or
+out of order; (3) every finished thread holds the serial results. -/
+theorem serialisable_with_listeners (ents : Nat → E.S) (progs : List (List (Nat × E.Op)))
+    (sched : List Nat) :
+    let g := grun (GSys.init (E := E) ents progs) sched
+    let ser := serial (M := E.toMachine) (fun e => (ents e, [])) g.sys.acq
+    (∀ e, g.sys.locked e = false →
+      g.sys.ents e = ser.ents e ∧ g.writesOf e = (ser.ents e).2) ∧
+    (∀ (t : Nat) (th : Thread E.toMachine), g.sys.threads[t]? = some th → th.cur = none →
+      th.outs = ser.outsOf t) := by
+  intro g ser
+  have hsys : g.sys = run true (Sys.init (M := E.toMachine) (fun e => (ents e, [])) progs) sched :=
+    run_sys _ sched
+  obtain ⟨_, h2, _, h4, _⟩ :=
+    serialisable (M := E.toMachine) (fun e => (ents e, [])) progs sched
+  have hw := grun_writes (GSys.init (E := E) ents progs) sched (by intro e; rfl)
+  constructor
+  · intro e hl
+    have hfree := h2 e (by rw [← hsys]; exact hl)
+    have h1 : g.sys.ents e = ser.ents e := by
+      simp only [ser]; rw [hsys]; exact hfree
+    exact ⟨h1, by rw [hw e, h1]⟩
+  · intro t th ht hc
+    simp only [ser]; rw [hsys]
+    exact (h4 t th (by rw [← hsys]; exact ht)).2 hc
+
+/-- Non-vacuity: two threads, two entities; every call adds to its entity and writes
+`(old value, amount)` to the shared store.  In this schedule the writes of entity 0 and 1
+interleave in the shared store and thread 1 has to wait for entity 0; per entity the writes are
+in lock order and chain (`(0,1), (1,3), (4,5)`: each sees the value the previous one left). -/
+@[reducible] def tickMachine : EMachine where
+  S := Nat
+  Op := Nat
+  Loc := Unit
+  Out := Nat
+  Eff := Nat × Nat
+  start := fun _ => ()
+  phases := fun n => [fun p => ((p.1 + n, ()), [(p.1, n)])]
+  finish := fun n _ => n
+
+example :
+    let g := grun (GSys.init (E := tickMachine) (fun _ => 0)
+      [[(0, 1), (0, 3)], [(1, 10), (0, 5)]]) [0, 1, 0, 1, 0, 1, 0, 1, 1, 0, 1, 0, 1, 1, 1]
+    g.shared = [(0, (0, 1)), (1, (0, 10)), (0, (1, 3)), (0, (4, 5))] ∧
+    g.writesOf 0 = [(0, 1), (1, 3), (4, 5)] ∧ g.writesOf 1 = [(0, 10)] ∧
+    (g.sys.ents 0).1 = 9 ∧ (g.sys.ents 1).1 = 10 ∧
+    g.sys.threads.map (·.outs) = ([[1, 3], [10, 5]] : List (List Nat)) := by
+  refine ⟨rfl, rfl, rfl, rfl, rfl, rfl⟩
+
+end Listeners
 
 /-! ### the lock is necessary -/
 
@@ -292,6 +395,55 @@ theorem failed_write_no_trace (hiv : A.initVersion ≤ 1) {e : Ent A} {L : Log A
       · rw [hs] at hl'; simp at hl'
       · exact hs
     simpa [hl, this] using h2
+
+/-- **history_read_linearisable.**  A history query that runs concurrently with commands:
+`command_history` holds the history-cache mutex for the whole query but takes the scope lock anew
+for every `command-N` it reads, so commands of other threads are serialised between its reads
+(`between k`).  Whatever slips in between, the records the query collects (it stops at the first
+missing key, read number `m`) are exactly the complete history of the log as it was at that last
+read – a state inside the query's own time span, after every command that completed before the
+query started: the query is linearisable with the commands, its linearisation point being its
+last read.  (Commands only append, `specRun_prefix`; for `drop_aggregate` see below.) -/
+theorem history_read_linearisable (L : Log A) (between : Nat → List (Op A)) (m : Nat)
+    (hsome : ∀ k, k < m → (readAt L between k).isSome = true)
+    (hnone : readAt L between m = none) :
+    (List.range m).filterMap (fun k => (readAt L between k).map Stored.toRecord) =
+      recordsUpTo (logAt L between m) (logAt L between m).length ∧
+    L <+: logAt L between m :=
+  ⟨history_read_spec L between m hsome hnone, logAt_prefix L between (Nat.zero_le m)⟩
+
+/-- Non-vacuity: a query on a log with one command; a second command (by `"late"`) is serialised
+between its first and second read and a third after its last read – the query returns the
+two-command history that was current at its last read. -/
+example :
+    let L : Log (Reg.regAgg 1) := specRun [] [.add 0 "a" "n0" false, .cmd 0 ⟨"first", .add 1⟩ false]
+    let between : Nat → List (Op (Reg.regAgg 1)) := fun k =>
+      if k = 0 then [.cmd 0 ⟨"late", .add 2⟩ false] else if k = 2 then [.cmd 0 ⟨"after", .add 1⟩ false] else []
+    (readAt L between 0).isSome = true ∧ (readAt L between 1).isSome = true ∧
+    readAt L between 2 = none ∧
+    ((List.range 2).filterMap fun k => (readAt L between k).map (·.actor)) = ["first", "late"] := by
+  decide
+
+/-- `drop_aggregate` and history queries: the scope is deleted under the scope lock, the
+history-cache entry is removed afterwards under the history-cache mutex (lock order history
+cache → scope, never the reverse: `Locks/Model.lean`, C18).  Because a query holds that mutex
+from its first to its last read, the removal happens entirely before or entirely after a query:
+no query ever runs on a half-cleared cache, and after the removal every query starts from
+`command-1` again – sequentially that is `history_lists_all` below (`DropSafe` histories).
+What the mutex does *not* give: a query whose reads straddle a deletion **and** re-creation of
+the handle sees keys of two different entities.  Model-level witness (not replayed on the code:
+it needs delete + create + two commands inside one history query; the mixed list is handed to
+that one caller only, the cache entry it leaves is removed by the pending `drop_aggregate`). -/
+theorem history_read_straddling_recreation :
+    let old : Log (Reg.regAgg 1) := specRunH []
+      [.op (.add 0 "a" "n0" false), .op (.cmd 0 ⟨"old1", .add 1⟩ false), .op (.cmd 0 ⟨"old2", .add 1⟩ false)]
+    let new : Log (Reg.regAgg 1) := specRunH old
+      [.drop 0, .op (.add 0 "a" "n0" false), .op (.cmd 0 ⟨"new1", .add 1⟩ false),
+       .op (.cmd 0 ⟨"new2", .add 1⟩ false), .op (.cmd 0 ⟨"new3", .add 1⟩ false)]
+    -- read 0 on the old entity, reads 1.. on the new one
+    ([old[1]?, new[2]?, new[3]?].filterMap fun r => r.map (·.actor)) = ["old1", "new2", "new3"] ∧
+    new[4]? = none := by
+  decide
 
 /-- **history_lists_all.**  After every history – creation, accepted / rejected / no-op / vetoed
 commands, failed writes, snapshots, store objects re-created, history queries at any earlier
